@@ -35,11 +35,17 @@ HARNESSES = [
     H("c20_last_char_3", 120, "last_str_char_and_tail: char at offset, next offset or tail",
       "|s|=3, every offset", covers_required=False, timeout=1500),
     H("c20_last_char_7", 200, "same", "|s|=7", tiers=T, covers_required=False, timeout=1500),
+    H("c20_last_char_multibyte_7", 200, "last_str_char_and_tail when the last character is a "
+      "4-byte scalar and only one NUL pads the string (len % 8 == 7)",
+      "3 symbolic ASCII bytes + U+1F600", covers_required=False, timeout=1500),
+    H("c20_last_char_multibyte_5", 200, "same with a 2-byte last character", "3 symbolic ASCII "
+      "bytes + U+00E9", tiers=T, covers_required=False, timeout=1500),
 ]
 ENCODED = ["ReservedHeapSection::push_pstr_segment", "scan_slice_to_str",
            "scan_slice_to_str_from_start", "pstr_sentinel_length", "Heap::pstr_tail_idx",
            "Heap::compute_pstr_size", "Heap::scan_slice_to_str", "Heap::slice_to_str",
-           "Heap::copy_pstr_within", "Heap::last_str_char_and_tail"]
+           "Heap::copy_pstr_within", "Heap::last_str_char_and_tail",
+           "heap::compare_pstr_slices (tail-index construction, engine M)"]
 ASSUME = ["string lengths are compile-time constants per harness; bytes are symbolic non-NUL ASCII",
           "one string per harness, written at cell 0..2 of a fresh heap"]
 BOUNDS = ("lengths {1,7,8} quick, +{2,6,9,15,16,17} thorough; index identities for every length "
@@ -49,5 +55,10 @@ OUTSIDE = ("allocate_pstr/allocate_cstr/push_pstr as a whole (str::find defeats 
            "UTF-8 contents")
 
 
+def mpost(results):
+    from vlib.mirsmt import c20
+    return c20.run()
+
+
 def run(tier):
-    return kprop.run("C20", HARNESSES, tier, ASSUME, ENCODED, BOUNDS, OUTSIDE)
+    return kprop.run("C20", HARNESSES, tier, ASSUME, ENCODED, BOUNDS, OUTSIDE, post=mpost)
